@@ -13,6 +13,8 @@ var verifSeeds = []string{
 	"package p\n\nimport \"fmt\"\n\nvar v = fmt.Sprint(1)\n\ntempl c() {\n\t<!DOCTYPE html>\n\t<!-- c -->\n\t// g\n\t{{ y := v }}\n\t@d(y) {\n\t\t<p>{ children... }</p>\n\t}\n\t@d(\"z\")\n}\n\ntempl d(s string) {\n\t{ s }\n}\n",
 	// 3: css and script templates, style/script elements
 	"package p\n\ncss k(c string) {\n\tcolor: { c };\n\twidth: 1px;\n}\n\nscript f(a string) {\n\talert(a);\n}\n\ntempl e(n string) {\n\t<style>p{}</style>\n\t<script>var q = {{ n }};</script>\n\t<button class={ k(n) } onclick={ f(n) }>b</button>\n}\n",
+	// 4: function literals and function types inside templ element expressions and arguments
+	"package p\n\ntempl g(f func() string) {\n\t@func() templ.Component {\n\t\treturn h(f)\n\t}()\n\t@h(func() string { return \"x\" }) {\n\t\t<b>k</b>\n\t}\n\t{ func(s string) string { return s }(\"y\") }\n}\n\ntempl h(f func() string) {\n\t{ f() }\n}\n",
 }
 
 // verifPos is the reference position of a byte index: line = newlines before it, col = bytes
@@ -111,6 +113,18 @@ func VerifC06Concrete() {
 var verifHoleSeeds = []string{
 	"// header §\n//go:build x\n\npackage p\n\ntempl a(§ string) {\n\t<div title={ § } hidden?={ §ok }>é { § }</div>\n}\n",
 	"package p\n\ntempl b(§ []string) {\n\tfor _, v := range § {\n\t\tif v == § {\n\t\t\t{ v }\n\t\t}\n\t}\n\t@c(§...)\n}\n\ntempl c(§ ...string) {\n}\n",
+	// padding: '¤' = symbolic horizontal space, '¶' = symbolic white space that may hold a line break
+	"package¤p\n\ncss k(§ string) {\n\tcolor: {¶§¶};\n}\n\ntempl d(§ string) {\n\t<div title={¶§¶} hidden?={ § == \"\" }>{¶§¶}</div>\n\tif § == \"\" {\n\t\t@d(¶§¶)\n\t}\n}\n",
+}
+
+// verifPad: 1..2 symbolic bytes of white space (horizontal only, or including LF).
+func verifPad(name string, lf bool) string {
+	s := symString(name, 2)
+	symAssume(len(s) >= 1)
+	for i := 0; i < len(s); i++ {
+		symAssume(s[i] == ' ' || s[i] == '\t' || (lf && s[i] == '\n'))
+	}
+	return s
 }
 
 func verifIdent(name string, max int) string {
@@ -132,12 +146,28 @@ func verifIdent(name string, max int) string {
 func VerifC06Holes() {
 	seed := verifHoleSeeds[symChoose(len(verifHoleSeeds))]
 	id := verifIdent("id", symParam("ID"))
+	for _, kw := range []string{"if", "go", "for", "var", "map"} {
+		symAssume(id != kw) // Go keywords are not identifiers
+	}
 	crlf := symBool("crlf")
+	hpad, vpad := " ", " "
+	for i := 0; i+1 < len(seed); i++ {
+		if seed[i] == 0xC2 && seed[i+1] == 0xA4 {
+			hpad, vpad = verifPad("hpad", false), verifPad("vpad", true)
+			break
+		}
+	}
 	input := ""
 	for i := 0; i < len(seed); i++ {
 		switch {
 		case seed[i] == 0xC2 && i+1 < len(seed) && seed[i+1] == 0xA7: // the hole marker
 			input += id
+			i++
+		case seed[i] == 0xC2 && i+1 < len(seed) && seed[i+1] == 0xA4:
+			input += hpad
+			i++
+		case seed[i] == 0xC2 && i+1 < len(seed) && seed[i+1] == 0xB6:
+			input += vpad
 			i++
 		case seed[i] == '\n' && crlf:
 			input += "\r\n"
@@ -188,8 +218,12 @@ func verifHoleSeedsFilled() []string {
 	for _, s := range verifHoleSeeds {
 		f := ""
 		for i := 0; i < len(s); i++ {
-			if s[i] == 0xC2 && i+1 < len(s) && s[i+1] == 0xA7 {
-				f += "x"
+			if s[i] == 0xC2 && i+1 < len(s) && (s[i+1] == 0xA7 || s[i+1] == 0xA4 || s[i+1] == 0xB6) {
+				if s[i+1] == 0xA7 {
+					f += "x"
+				} else {
+					f += " "
+				}
 				i++
 				continue
 			}
